@@ -511,6 +511,12 @@ func runC15(c *eng.Ctx) {
 						if cl, isC := m.(*ast.CallExpr); isC && (builtinCall(info, cl, "len") != nil || builtinCall(info, cl, "cap") != nil) {
 							return false // only the length is used, not the elements
 						}
+						if id, isId := m.(*ast.Ident); isId {
+							// a local that holds the cached path
+							if r := resolveLocal(info, inner.Body, id); r != ast.Expr(id) {
+								m = ast.Unparen(r)
+							}
+						}
 						if ix, isIx := m.(*ast.IndexExpr); isIx && eng.IsField(info, ix.X, pathsCache) && eng.SelObj(info, ix.Index) == prefix {
 							mentionsCacheOfPrefix = true
 						}
